@@ -147,6 +147,11 @@ func (fr *Frame) cutLoop(li *loopInfo, st *State, preds []*ssa.BasicBlock, pstat
 	for _, phi := range phis {
 		v := vc.freshValue(fr.vname(phi), phi.Type(), nil)
 		vc.assume(st, vc.allocFacts(st, v, phi.Type()))
+		if phi.Comment == "rangeindex" {
+			// the hidden index of a range loop starts at -1 and is only ever incremented
+			// (by construction of the SSA form: its only other edge value is itself + 1)
+			vc.assume(st, "(>= "+v.C[0]+" (- 1))")
+		}
 		fr.vals[phi] = v
 	}
 	// 4. assume invariants
